@@ -340,6 +340,10 @@ static bool case_c14(const Plan& pl0, Stats& st, Violation& v) {
     // explicit schedule for the replay file
     Plan exp = pl; if (!cc.explicit_sched) { exp.sched = cc.taken; }
     if (ft.op >= 0) { exp.faults.clear(); exp.faults.push_back(pl.faults[0]); }
+    if (sr.runtime_state_call) {
+      v.cls = "process-global-state"; v.sig = std::string("process-global-state ") + sr.runtime_state_call;
+      v.detail = std::string("library code called ") + sr.runtime_state_call + "(): mutable state of the C/C++ runtime that is shared by all threads and lives outside the caller's objects"; v.plan = exp; return true;
+    }
     // detector A: equivalence with sequential execution
     RunOut inter; inter.setup = std::move(setup); inter.tasks = std::move(outs);
     std::string d = cmp_runs(ref, inter, false);
